@@ -59,7 +59,7 @@ ASSUME Faults \subseteq FaultNames
 (***************************************************************************************************)
 Archetypes == {"chunk", "array", "string", "token"}
 Roles == [chunk  |-> {"tag", "csize"},
-          array  |-> {"count", "offset", "esize", "bsize", "shift", "index"},
+          array  |-> {"count", "offset", "esize", "bsize", "shift", "index", "extent"},
           string |-> {"strlen", "stroff", "term"},
           token  |-> {"marker"}]
 \* boundary repetition counts of a state marker (max = the count at which the decoder state saturates)
